@@ -26,7 +26,7 @@ func TestC04conc(t *testing.T) {
 	col := evd.New("C04", cfg)
 	defer col.Flush()
 	n := cfg.N(200, 6000)
-	var rounds, handed int64
+	var rounds, handed, deadlocks int64
 	for i := 0; i < n; i++ {
 		seed := cfg.CaseSeed("C04conc", i)
 		if !cfg.Want(i, seed) {
@@ -72,6 +72,14 @@ func TestC04conc(t *testing.T) {
 					max  int32
 				}
 				out := make([]res, np)
+				// in a third of the cases one statement of the first puller fails with a
+				// deadlock error (SQLSTATE 40P01), the one storage error a pull retries on
+				// by itself: whatever the retry ends with is what the puller may hand out
+				deadlocked := i%3 == 1
+				if deadlocked {
+					seam.C.ResetCounts()
+					seam.C.SetFault(&seam.Fault{Actor: "pl0", K: 5 + r.Intn(8), Mode: seam.FaultDeadlock})
+				}
 				var wg sync.WaitGroup
 				for p := 0; p < np; p++ {
 					out[p].max = int32(1 + r.Intn(nm+2))
@@ -86,6 +94,17 @@ func TestC04conc(t *testing.T) {
 					}(p)
 				}
 				wg.Wait()
+				if deadlocked {
+					if seam.C.FaultHits() > 0 {
+						deadlocks++
+						if out[0].err != nil {
+							// it hit a transaction the pull does not retry: an error answer is
+							// a correct one, the puller simply took nothing
+							out[0].err, out[0].msgs, out[0].max = nil, nil, 0
+						}
+					}
+					seam.C.SetFault(nil)
+				}
 				rounds++
 				seen := map[string]int{}
 				capacity := 0
@@ -138,6 +157,7 @@ func TestC04conc(t *testing.T) {
 		})
 	}
 	col.Add("ev_concurrent_pull_rounds", rounds)
+	col.Add("ev_rounds_with_an_injected_deadlock_error_in_one_puller", deadlocks)
 	col.Add("ev_deliveries_handed_out_concurrently", handed)
 	col.Add("relevant_events", handed)
 }
